@@ -116,6 +116,49 @@ def stringvalue(string):
     return string.replace('\\' + string[0], string[0])[1:-1]
 
 
+def ident(value, hash_=False):
+    """
+    Serialize an identifier whose unicode escapes have been resolved by the
+    tokenizer: a character which cannot stand in a name as it is - white
+    space, a control or punctuation character, a digit at the start - is
+    written as an escape again, e.g.::
+
+        ``1a`` => ``\\31 a``, ``a)b`` => ``a\\29 b``
+
+    Simple escapes (``a\\.b``) are kept by the tokenizer and stay as they
+    are.  `hash_`: the name of a HASH may start with a digit or hyphen.
+    """
+    if not value or _is_plain_name(value):
+        return value
+    out = []
+    i, n = 0, len(value)
+    while i < n:
+        c = value[i]
+        if c == '\\' and i + 1 < n:
+            # a kept simple escape
+            out.append(value[i : i + 2])
+            i += 2
+            continue
+        start = not hash_ and i == len(value) - len(value.lstrip('-'))
+        if (
+            c.isascii()
+            and not (c.isalnum() or c in '_-')
+            or (start and c.isdigit())
+            or (c == '\\')
+        ):
+            out.append('\\%x ' % ord(c))
+        elif not c.isascii() and ord(c) < 0xA0:
+            # C1 controls
+            out.append('\\%x ' % ord(c))
+        else:
+            out.append(c)
+        i += 1
+    return ''.join(out)
+
+
+_is_plain_name = re.compile(r'-*[A-Za-z_\u00a0-\U0010ffff][A-Za-z0-9_\u00a0-\U0010ffff-]*\Z').match
+
+
 _match_forbidden_in_uri = re.compile(r'''.*?[\(\)\s\;,'"\x00-\x1f\x7f]''', re.U).match
 
 
